@@ -490,6 +490,7 @@ def run(ctx: Ctx) -> None:
     run_reexport_sound(ctx)
     replay_hidden_cycle_witness(ctx)
     replay_early_mro_witness(ctx)
+    replay_star_module_witness(ctx)
     replay_witnesses(ctx)
 
 
@@ -871,6 +872,45 @@ def replay_early_mro_witness(ctx: Ctx) -> None:
                  f"in M, 'E.w' resolves to {pd} but E derives from D.N = C.N (C3 order of D), whose w Python finds")
     else:
         ctx.count("witness:early-mro:sound-now")
+
+
+def replay_star_module_witness(ctx: Ctx) -> None:
+    """a SUBMODULE re-exported through a star import (`q/__init__.py`: `from p import *` ; `__all__ = ['sub']`): `_importAll`,
+    unlike `_importNames`, does not process the submodule before `_handleReExport` moves it, so a `p.sub` that is still
+    unprocessed is analysed as `q.sub` and its relative imports are resolved against `q` (open finding
+    order-dependent:star-reexport-unprocessed-module; outside WFr: a module is moved, star import next to __all__)"""
+    units = [Unit("p", True, "", None), Unit("p.x", False, "class PX:\n    '''ID:PX'''\n", "p"),
+             Unit("p.sub", False, "from .x import PX\n", "p"),
+             Unit("q", True, "from p import *\n__all__ = ['sub']\n", None),
+             Unit("q.x", False, "class PX:\n    '''ID:QX'''\n", "q")]
+    got = []
+    reqs, impls, pay = [], [], []
+    try:
+        toks, _info = abstract_project(units, pd_only=True)
+    except Unsupported:
+        toks = None
+    for order in ([0, 1, 2, 3, 4], [0, 1, 3, 4, 2]):
+        system, mods, dup = build_real(units, order)
+        r = mods[2].resolveName("PX")
+        got.append(None if r is None else r.docstring)
+        if toks is not None:        # the Lean model of the building code follows the code as it is (defect included)
+            reqs.append("imports build " + " ".join(toks) + " O|" + ",".join(map(str, order)) + " ? R|2|-|" + enc("PX"))
+            impls.append("ok bad=%s | %s | %s" % ("true" if dup else "false", pd_dump(system), pd_answer(mods[2], "PX")))
+            pay.append({"units": {u.qname: u.source for u in units}, "order": order})
+    compare_lines(ctx, "imports-build-star-module", reqs, impls, pay)
+    py = run_cpython([{"files": files_of(units), "modules": ["p", "p.x", "p.sub", "q", "q.x"], "sites": True}])[0]
+    pyv = (py.get("sites") or {}).get("p.sub", {}).get("PX")
+    ctx.traces_validated += 1
+    ctx.case("witness:star-module:PX", True, {"pydoctor": got, "python": pyv})
+    if py.get("error") or pyv != "d:p.x.PX":
+        ctx.disagree("witness-star-module", {"units": {u.qname: u.source for u in units}}, "Python: PX of p.sub is p.x.PX", str(pyv))
+    elif got[0] != got[1] or any(g not in (None, "ID:PX") for g in got):
+        ctx.fail("order-dependent:star-reexport-unprocessed-module",
+                 {"units": {u.qname: u.source for u in units}, "orders": [[0, 1, 2, 3, 4], [0, 1, 3, 4, 2]], "scope": "p.sub", "name": "PX"},
+                 "in p.sub (documented as q.sub), 'PX' resolves to the class %s when p.sub is processed before q and to %s when "
+                 "q is processed first; Python binds it to p.x.PX" % (got[0], got[1]))
+    else:
+        ctx.count("witness:star-module:sound-now")
 
 
 def replay_witnesses(ctx: Ctx) -> None:
